@@ -164,9 +164,22 @@ theorem step_winv (act : Nat → Act) (h : List Out) (rs : List Nat) (p : P) (i 
       induction p.q.waiters with
       | nil => rfl
       | cons a r ih => simp [ih]
+    have hl : notifs (p.q.legacy.map fun r => Out.legacy r p.q.clean) = [] := by
+      induction p.q.legacy with
+      | nil => rfl
+      | cons a r ih => simp [ih, notifOf]
     refine ⟨?_, by simp⟩
-    simp only [notifs_append, hn, hd.2, List.append_nil]
+    simp only [notifs_append, hn, hl, hd.2, List.append_nil]
     exact hi.acct
+  | onDisc rid =>
+    simp only [Ctl.step, liftQ, onDisc, reqs, List.append_nil]
+    split
+    · exact winv_quiet (r := (p.q, [Out.legacyGone rid])) hi ⟨by simp [notifOf], rfl, rfl⟩
+    · simp only [List.append_nil]
+      exact ⟨hi.acct, hi.none_waiting⟩
+  | reason clean =>
+    simp only [Ctl.step, reqs, List.append_nil]
+    exact ⟨hi.acct, hi.none_waiting⟩
   | whenDisc rid =>
     simp only [Ctl.step, liftQ, whenDisc, reqs]
     split
